@@ -8,7 +8,7 @@ from .. import tlc
 from ..common import Report, pmap
 from ..trackdrv import scenario
 
-FAMILY = r"^diff\.|^vert\.reflect|^run\.crashed|^lattice|^setup\.valid|^stat\."
+FAMILY = r"^track\.every_step|^trace\.incomplete|^diff\.|^vert\.reflect|^run\.crashed|^lattice|^setup\.valid|^stat\."
 DRIVERS = {"tracker-diffusion": ("harness.trackdrv", "track_trace", "TrackTrace", FAMILY),
            "tracker-statistics": ("harness.checks.c11", "stat_trace", "StatTrace", FAMILY)}
 
